@@ -271,11 +271,21 @@ pub fn main_entry() -> i32 {
             let case = v.get("case").cloned().unwrap_or(v.clone());
             let name = f.file_name().map(|n| n.to_string_lossy().to_string()).unwrap_or_default();
             let wrapped = serde_json::json!({"corpus_file": name, "case": case});
-            part.check(&wrapped, &|w: &serde_json::Value| (def.replay)(&w["case"], &env).map(|mut o| {
-                o.nontrivial = true;
-                o.label("corpus_case");
-                o
-            }));
+            part.check(&wrapped, &|w: &serde_json::Value| match (def.replay)(&w["case"], &env) {
+                Ok(mut o) => {
+                    o.nontrivial = true;
+                    o.label("corpus_case");
+                    Ok(o)
+                }
+                // a corpus file that this binary cannot decode (written by another harness binary or by an older
+                // case format) says nothing about the library: it is skipped and counted, never reported
+                Err(f) if f.sig.starts_with("replay/parse") => {
+                    let mut o = vcore::engine::Outcome::new();
+                    o.label("corpus_file_not_decodable_skipped");
+                    Ok(o)
+                }
+                Err(f) => Err(f),
+            });
         }
         corpus_stats.merge(part.finish());
     }
